@@ -819,6 +819,14 @@ func (e *Engine) callContract(c *Contract, fn *types.Func, recvName string, recv
 	for _, cf := range clos {
 		e.handleClosureArg(cf.lit, cf.fv, st, where)
 	}
+	if len(e.frames) == 1 {
+		rk := strings.NewReplacer(".", "_", "interface ", "").Replace(c.Key)
+		if len(results) == 1 {
+			e.callRes[rk] = append(e.callRes[rk], results[0])
+		} else if len(results) > 1 {
+			e.callRes[rk] = append(e.callRes[rk], VTuple(results))
+		}
+	}
 	switch len(results) {
 	case 0:
 		return VTuple{}
